@@ -41,7 +41,7 @@ def check(ctx):
     frame_atomicity(ctx)
     from ..effects import fresh_outputs, input_purity
     fresh_outputs(ctx, "R15.6", "after Ctrl-C inside update() the Runner writes (or keeps) the previous step's state, part of which has already been overwritten by the abandoned step: the file's last frame is not the state of any step")
-    input_purity(ctx, "R15.7", 'an update() abandoned by an interrupt has already modified the arrays of the previous state that the Runner goes on to save')
+    input_purity(ctx, "R15.7", modules=("tdgl.solver", "tdgl.finite_volume"), min_functions=60, consequence='an update() abandoned by an interrupt has already modified the arrays of the previous state that the Runner goes on to save')
     ctx.assume("h5py.File.close() flushes; the OS honours exclusive creation")
     ctx.decline("SWMR semantics, OS-level file locking, asynchronous interrupts between bookkeeping statements")
 
@@ -270,7 +270,10 @@ def open_modes(ctx):
     # solve() appends the Solution to data_handler.output_path only
     fs = repo.func(SOLVER, "TDGLSolver.solve")
     sol = [n for n in own_nodes(fs.node) if isinstance(n, ast.Call) and norm(n.func) == "Solution"]
-    ok = len(sol) == 1 and any(k.arg == "path" and norm(k.value) == "data_handler.output_path" for k in sol[0].keywords)
+    # the handler is the `as` name of `with DataHandler(...) as <h>` (whatever it is called)
+    hnames = {norm(it.optional_vars) for w in own_nodes(fs.node) if isinstance(w, ast.With) for it in w.items
+              if isinstance(it.context_expr, ast.Call) and norm(it.context_expr.func) == "DataHandler" and it.optional_vars is not None}
+    ok = len(sol) == 1 and len(hnames) == 1 and any(k.arg == "path" and norm(k.value) == f"{next(iter(hnames))}.output_path" for k in sol[0].keywords)
     ctx.ob("R15.3", "the Solution is appended to the file this run created (data_handler.output_path)", ok,
            detail=[norm(s)[:200] for s in sol], where=fs.fq, construct="Solution(path=...)", message="Solution path is not the handler's output path",
            consequence="the solution metadata is written into a pre-existing user file")
@@ -322,7 +325,10 @@ def cancellation(ctx):
     if ok:
         g = [("" if br == "true" else "not ") + norm(x.test) for x, br in guards_of(fs.node, sol[0], pm2) if isinstance(x, ast.If)]
         inw = any(isinstance(x, ast.With) for x, _ in guards_of(fs.node, sol[0], pm2))
-        ok = g == ["data_was_generated"] and inw
+        # the guard is the result of runner.run(), whatever the local is called
+        runs = [norm(n.targets[0]) for n in own_nodes(fs.node) if isinstance(n, ast.Assign) and isinstance(n.value, ast.Call)
+                and isinstance(n.value.func, ast.Attribute) and n.value.func.attr == "run" and not n.value.args]
+        ok = len(runs) == 1 and g == [runs[0]] and inw
     ctx.ob("R15.4", "solve() builds and saves the Solution iff run() returned True, inside the with block", ok, where=fs.fq,
            construct="Solution construction", message="Solution is not built exactly when data was generated",
            consequence="cancellation returns None although a partial result exists")
@@ -344,25 +350,36 @@ def frame_atomicity(ctx):
     idx = body.index(c) if c in body else None
     protected = False
     unprotected = []
+    narrow = []
     if idx is not None:
         for s in body[idx + 1:]:
             if isinstance(s, ast.Try):
                 dels = [h for h in s.handlers if any(
                     isinstance(x, ast.Delete) and "time_step_group" in norm(x) for x in ast.walk(h)) and
                     any(isinstance(x, ast.Raise) for x in ast.walk(h))]
-                catches_all = any(h.type is None or norm(h.type) in ("BaseException", "Exception") or "BaseException" in norm(h.type) for h in dels)
+                # the property's stop points include Ctrl-C inside the writer: KeyboardInterrupt is not an Exception
+                def covers_interrupt(h):
+                    if h.type is None:
+                        return True
+                    names = {norm(x) for x in (h.type.elts if isinstance(h.type, ast.Tuple) else [h.type])}
+                    return "BaseException" in names or ("KeyboardInterrupt" in names and "Exception" in names)
+                catches_all = any(covers_interrupt(h) for h in dels)
                 if dels and catches_all:
                     protected = True
                     continue
+                if dels and not catches_all:
+                    narrow = [norm(h.type) for h in dels]
             if default_may_raise(s) and any(isinstance(x, ast.Name) and x.id in (gname, "running_grp", "tmp_grp") or
                                             (isinstance(x, ast.Attribute) and x.attr == "save_number") for x in ast.walk(s)):
                 unprotected.append(f"L{s.lineno}: {norm(s)[:70]}")
     wrote_outside = [u for u in unprotected if gname in u or "running_grp" in u]
     ok = protected and not wrote_outside
-    ctx.ob("R15.5", "writes into a freshly created frame group are covered by a handler that deletes the group and re-raises", ok,
-           detail={"create": norm(c), "unprotected_writes": wrote_outside}, where=f.fq, construct="frame group fill",
+    ctx.ob("R15.5", "writes into a freshly created frame group are covered by a handler that deletes the group and re-raises "
+                    "for every exception class including KeyboardInterrupt", ok,
+           detail={"create": norm(c), "unprotected_writes": wrote_outside, "handler_too_narrow": narrow}, where=f.fq, construct="frame group fill",
            loc=loc(f, c),
-           message=f"`{norm(c)}` links the frame first and fills it afterwards with no cleanup on failure: {wrote_outside[:3]}",
+           message=(f"the cleanup handler of the frame fill only catches {narrow}: a KeyboardInterrupt while the frame is written leaves the partial group"
+                    if narrow else f"`{norm(c)}` links the frame first and fills it afterwards with no cleanup on failure: {wrote_outside[:3]}"),
            consequence="an I/O error (or interrupt) while writing frame k leaves data/<k> with attributes but missing datasets; "
                        "get_data_range counts it and loading the last frame fails",
            witness={"input": "OSError injected into the third group[key] = value of frame 2"})
